@@ -655,7 +655,11 @@ func runFrame(fr *frame) {
 		fr.panic = r
 		if fr.p.panicSite == "" || !fr.p.panicLive {
 			fr.p.panicLive = true
-			fr.p.panicSite = fr.fn.String() + fr.curPos()
+			site := fr.fn.String() + fr.curPos()
+			for c, k := fr.caller, 0; c != nil && c.fn != nil && k < 12; c, k = c.caller, k+1 {
+				site += " <- " + c.fn.Name()
+			}
+			fr.p.panicSite = site
 		}
 		fr.runDefers()
 		// recovered
